@@ -17,14 +17,21 @@ INVARIANT EmitDone
 """
 
 
-def impl(head, last, changes, step, mode):
+# what the value is concretely after k changes: the count itself, a balance spent down to zero, and values of mixed kinds that end up falsy
+PALETTES = {'count': lambda k: k,
+            'down-to-zero': lambda k: 2 - k,
+            'mixed': lambda k: {0: 'tz1delegate', 1: None, 2: '', 3: (), 4: 0.5}.get(k, 'v%d' % k)}
+
+
+def impl(head, last, changes, step, mode, palette='count'):
     from pytezos.rpc import search
     cs = sorted(changes)
     probes = []
+    val = PALETTES[palette]
 
     def get(level):
         probes.append(level)
-        return sum(1 for c in cs if c <= level)
+        return val(sum(1 for c in cs if c <= level))
     eq = lambda a, b: a == b
     try:
         if mode == 'all':
@@ -36,10 +43,12 @@ def impl(head, last, changes, step, mode):
     return out, probes
 
 
-def compare(ctx, head, last, changes, step, mode, model_out, sig='C29:replay'):
-    got, probes = impl(head, last, changes, step, mode)
-    want = [tuple(x) for x in model_out]
-    case = {'head': head, 'last': last, 'changes': list(changes), 'step': step, 'mode': mode, 'out': to_json(model_out)}
+def compare(ctx, head, last, changes, step, mode, model_out, sig='C29:replay', palette='count'):
+    got, probes = impl(head, last, changes, step, mode, palette)
+    want = [(x[0], PALETTES[palette](x[1])) for x in model_out]
+    case = {'head': head, 'last': last, 'changes': list(changes), 'step': step, 'mode': mode, 'out': to_json(model_out), 'palette': palette}
+    if palette != 'count':
+        sig += ':values-' + palette
     if got == want:
         if any(p < last or p > head for p in probes):
             ctx.mismatch(sig + ':probe-out-of-range', 'probes %s outside [%d, %d]' % (probes, last, head), case)
@@ -61,7 +70,7 @@ def run(ctx):
     ctx.rule = ('histories over (last, head] given by their set of change levels (value = number of changes so far, so it never returns); '
                 'Leg A: TLC runs the intended sampling + bisection algorithm probe by probe and checks the output equals the set of changes; '
                 'Leg B: every completed search is replayed through find_state_changes / find_state_change; non-trivial = at least one change')
-    ctx.assumptions = ['equals is ==; values are change counts, which covers every history that never returns to an earlier value up to renaming',
+    ctx.assumptions = ['equals is ==; values are change counts, which covers every history that never returns to an earlier value up to renaming; every history with a change is replayed under two more renamings (a balance going down to 0; a delegate string, None, empty string, empty tuple, ...)',
                        'find_state_change is only compared on histories that contain a change (its contract presupposes one)']
     last0 = 3
     rng_, mc = (9, 3) if ctx.quick else (13, 4)
@@ -77,6 +86,11 @@ def run(ctx):
         ok = compare(ctx, head, last0, changes, step, mode, out)
         ctx.replayed += 1
         ctx.count((head, changes, step, mode), nontrivial=len(changes) > 0)
+        if changes:
+            for pal in ('down-to-zero', 'mixed'):      # the same history with other concrete values (the search only ever compares them)
+                ok = compare(ctx, head, last0, changes, step, mode, out, palette=pal) and ok
+                ctx.replayed += 1
+                ctx.count((head, changes, step, mode, pal), nontrivial=True)
         if ok and len(changes) >= 2:
             ctx.sample({'head': head, 'last': last0, 'changes': changes, 'step': step, 'mode': mode, 'out': out}, limit=4)
     ctx.exhaustive = True
@@ -93,7 +107,7 @@ def run(ctx):
 
 def replay(ctx, rep):
     c = rep['case']
-    ok = compare(ctx, c['head'], c['last'], c['changes'], c['step'], c['mode'], c['out'])
+    ok = compare(ctx, c['head'], c['last'], c['changes'], c['step'], c['mode'], c['out'], palette=c.get('palette', 'count'))
     for m in ctx.mismatches:
         print('REPRODUCED', m.signature, m.detail)
     return 0 if ok else 1
